@@ -1,5 +1,5 @@
 #!/bin/sh
-# Build the simulator (both profiles) from files on disk only, then prove that it
+# Build the simulator (all three profiles) from files on disk only, then prove that it
 # is deterministic and that scenarios survive the replay-file round trip.
 set -e
 ROOT="$(cd "$(dirname "$0")" && pwd)"
@@ -7,4 +7,6 @@ cd "$ROOT/sim"
 export CARGO_NET_OFFLINE=true
 cargo build --release --offline 2>&1 | tail -3
 cargo build --profile checked --offline 2>&1 | tail -3
+# the unoptimised build that C03 also runs (opt-level 0)
+cargo build --offline 2>&1 | tail -3
 "$ROOT/selftest.sh" 1000
